@@ -419,15 +419,17 @@ Example C02_match_quotes_stale_twin_limit :
 Proof. exact match_quotes_stale_witness. Qed.
 
 (* ====================== phase 4: the Markdown glue ======================
-   Model: Model/C02Markdown.v — Markdown::parse over an ABSTRACT pulldown-cmark event stream (an event = the arm of
-   `match event` it falls into, its payload's char count, its source BYTE range), with the real inner parser
-   (plain_parse), the byte/char bookkeeping of Model/Mask.v, the final pop and the two wikilink passes.
-   md_contract src evs (decidable, md_contractb; monitored on every generated document):
-     K1 every range is start <= end on char boundaries of the source;
-     K2 an event that makes a covering token (SoftBreak, HardBreak, Code / Math, Html, Text) starts at or after every
-        earlier range start and at or after the end of every earlier such event (leaf ranges ordered and disjoint);
-     K3 its source range holds at least the characters the token claims: 1 for the breaks, the non-empty payload for
-        Code / Math / Html (nothing is asked of Text: its claim is clamped by the code since 548c418).
+   Model: Model/C02Markdown.v — Markdown::parse (as it is after a37d1cc and 8b26ba4) over an ABSTRACT pulldown-cmark
+   event stream (an event = the arm of `match event` it falls into, its payload's char count, its source BYTE range),
+   with the real inner parser (plain_parse), the byte/char bookkeeping of Model/Mask.v, the covered_until guard, the
+   final pop and the two wikilink passes.
+   md_contract ilt src evs (decidable, md_contractb: a shadow run of cursor / covered_until / tag stack that needs no
+   lexing; monitored on every generated document).  ORDER and DISJOINTNESS of the events are no longer assumed: the
+   guard of 8b26ba4 enforces them (the old clause K2 is gone).  Asked only of the events the guard does not skip:
+     K1 every range starts on a char boundary; a Text range is start <= end on char boundaries;
+     K3 the range of an event that pushes a covering token ends on a char boundary at or after the cursor, and the
+        source between the cursor and that end holds the characters the token claims (1 for breaks, the payload for
+        Code / Math / Html, the clamped length for Text); an Html payload is not empty.
    valid_char = Rust's `char` invariant (a scalar value), a fact about the input type. *)
 
 (* under the contract Markdown::parse never panics; the loop's tokens `raw` and the final tokens `ts` (a sub-sequence:
@@ -435,14 +437,14 @@ Proof. exact match_quotes_stale_witness. Qed.
    token invariant of the property — start <= end, covering tokens in bounds, ordered and disjoint, zero-width tokens
    only Newline / ParagraphBreak — and EVERY token, the zero-width ones too, ends inside the text *)
 Theorem C02_markdown_glue : forall u ilt src evs,
-  Forall valid_char src -> md_contract src evs ->
+  Forall valid_char src -> md_contract ilt src evs ->
   exists raw ts,
     markdown_raw u ilt src evs = Ok raw /\ markdown_parse u ilt src evs = Ok ts /\ Sub ts raw /\
     TokInv (length src) raw /\ TokInv (length src) ts /\
     Forall (fun t => tend t <= length src) ts.
 Proof. exact markdown_glue. Qed.
 Check C02_markdown_glue : forall u ilt src evs,
-  Forall valid_char src -> md_contract src evs ->
+  Forall valid_char src -> md_contract ilt src evs ->
   exists raw ts,
     markdown_raw u ilt src evs = Ok raw /\ markdown_parse u ilt src evs = Ok ts /\ Sub ts raw /\
     TokInv (length src) raw /\ TokInv (length src) ts /\
@@ -456,36 +458,55 @@ Proof. exact remove_indices_sub. Qed.
 Check C02_remove_indices_sub : forall (xs : list token) i q, Sub (remove_indices i q xs) xs.
 Print Assumptions C02_remove_indices_sub.
 
-(* the contract is NOT always met by pulldown-cmark 0.13, and then the property fails on the implementation:
-   FC02b — `[[a|]] b`: the events after a wikilink with an empty display text are reported twice (clause K2 fails);
-   Markdown::parse emits the tokens of ` b` twice: covering tokens neither ordered nor disjoint *)
-Theorem C02_markdown_duplicate_text_refuted :
-  md_contractb (encode md_dup_src) 0 0 md_dup_evs = false /\
+(* FC02b, repaired by 8b26ba4 — `[[a|]] b`: pulldown-cmark 0.13 still reports the text after the link twice, but the
+   stream now MEETS the contract, the guard skips the repeat, and the tokens tile 4..8 *)
+Theorem C02_markdown_repeated_text_skipped :
+  md_contract false md_dup_src md_dup_evs /\
   markdown_parse ascii_uni false md_dup_src md_dup_evs = Ok md_dup_out /\
-  ~ OrderedDisjoint md_dup_out.
-Proof. exact markdown_duplicate_text_witness. Qed.
-Check C02_markdown_duplicate_text_refuted :
-  md_contractb (encode md_dup_src) 0 0 md_dup_evs = false /\
+  Tiling 4 8 md_dup_out.
+Proof. exact markdown_repeated_text_skipped. Qed.
+Check C02_markdown_repeated_text_skipped :
+  md_contract false md_dup_src md_dup_evs /\
   markdown_parse ascii_uni false md_dup_src md_dup_evs = Ok md_dup_out /\
-  ~ OrderedDisjoint md_dup_out.
-Print Assumptions C02_markdown_duplicate_text_refuted.
+  Tiling 4 8 md_dup_out.
+Print Assumptions C02_markdown_repeated_text_skipped.
 
-(* FC02a — `$$$$`: DisplayMath with an empty payload (clause K3 fails) becomes a zero-width Unlintable token *)
-Theorem C02_markdown_empty_math_refuted :
-  md_contractb (encode md_math_src) 0 0 md_math_evs = false /\
-  markdown_parse ascii_uni false md_math_src md_math_evs = Ok [mktok (mkspan 0 0) KUnlintable] /\
-  ~ ZeroWidthOnlyBreaks [mktok (mkspan 0 0) KUnlintable].
-Proof. exact markdown_empty_math_witness. Qed.
-Check C02_markdown_empty_math_refuted :
-  md_contractb (encode md_math_src) 0 0 md_math_evs = false /\
-  markdown_parse ascii_uni false md_math_src md_math_evs = Ok [mktok (mkspan 0 0) KUnlintable] /\
-  ~ ZeroWidthOnlyBreaks [mktok (mkspan 0 0) KUnlintable].
-Print Assumptions C02_markdown_empty_math_refuted.
+(* FC02a, repaired by a37d1cc — `$$$$`: the contract holds, no token *)
+Theorem C02_markdown_empty_math_no_token :
+  md_contract false md_math_src md_math_evs /\
+  markdown_parse ascii_uni false md_math_src md_math_evs = Ok [].
+Proof. exact markdown_empty_math_no_token. Qed.
+Check C02_markdown_empty_math_no_token :
+  md_contract false md_math_src md_math_evs /\
+  markdown_parse ascii_uni false md_math_src md_math_evs = Ok [].
+Print Assumptions C02_markdown_empty_math_no_token.
+
+(* HISTORY (labelled): the loop before the two fixes (markdown_parse_old) on the same streams — the tokens of ` b`
+   twice, not ordered / disjoint; a zero-width Unlintable token *)
+Example C02_markdown_old_refuted :
+  (markdown_parse_old ascii_uni false md_dup_src md_dup_evs
+   = Ok (md_dup_out ++ [mktok (mkspan 6 7) (KSpace 1); mktok (mkspan 7 8) KWord]) /\
+   ~ OrderedDisjoint (md_dup_out ++ [mktok (mkspan 6 7) (KSpace 1); mktok (mkspan 7 8) KWord])) /\
+  (markdown_parse_old ascii_uni false md_math_src md_math_evs = Ok [mktok (mkspan 0 0) KUnlintable] /\
+   ~ ZeroWidthOnlyBreaks [mktok (mkspan 0 0) KUnlintable]).
+Proof. exact markdown_old_witnesses. Qed.
+
+(* FC02c (open, the residue of FC02b) — `x ![[a|]] Old _a_ b`: the repeat happens inside an image, whose texts push
+   no token, so the guard does not fire; the repeated Text ` Old ` (range 9..14, behind the cursor 17) is placed at the
+   cursor and `&source[17..22]` of a 19-character source panics.  Clause K3 fails on the stream *)
+Theorem C02_markdown_backward_event_refuted :
+  md_contractb false (encode md_back_src) 0 0 None [] md_back_evs = false /\
+  markdown_parse ascii_uni false md_back_src md_back_evs = Panic PIndex.
+Proof. exact markdown_backward_event_witness. Qed.
+Check C02_markdown_backward_event_refuted :
+  md_contractb false (encode md_back_src) 0 0 None [] md_back_evs = false /\
+  markdown_parse ascii_uni false md_back_src md_back_evs = Panic PIndex.
+Print Assumptions C02_markdown_backward_event_refuted.
 
 (* non-vacuity: "ü [[a|b]] `c`\n" with the event stream pulldown-cmark really delivers meets the contract; a
    multi-byte character, a wikilink whose hidden target and brackets are removed, inline code, a kept trailing break *)
 Example C02_markdown_glue_nonvacuous :
-  Forall valid_char md_ex_src /\ md_contract md_ex_src md_ex_evs /\
+  Forall valid_char md_ex_src /\ md_contract false md_ex_src md_ex_evs /\
   markdown_parse uni_u_umlaut false md_ex_src md_ex_evs
   = Ok [mktok (mkspan 0 1) KWord; mktok (mkspan 1 2) (KSpace 1); mktok (mkspan 6 7) KWord;
         mktok (mkspan 9 10) (KSpace 1); mktok (mkspan 10 11) KUnlintable; mktok (mkspan 10 10) KParagraphBreak].
@@ -498,7 +519,7 @@ Theorem C02_markdown_tables : forall u ilt src bs stack tc rs re,
   map md_tag_name (filter (tag_is_prose ilt) md_all_tags)
     = map fst (filter (fun p => negb (snd p && ilt)) md_prose_tags) /\
   map (fun e => match mk_step u ilt src bs stack tc (mkmev e rs re) with
-                | Ok ([t], _) => Some (Lexer.tspan t, tkind_of t)
+                | Ok [t] => Some (Lexer.tspan t, tkind_of t)
                 | _ => None
                 end) [MSoftBreak; MHardBreak; MStart TList]
     = map (fun '(_, len, n) => Some (span_new_with_len tc len, KNewline n)) md_break_arms /\
@@ -508,7 +529,7 @@ Check C02_markdown_tables : forall u ilt src bs stack tc rs re,
   map md_tag_name (filter (tag_is_prose ilt) md_all_tags)
     = map fst (filter (fun p => negb (snd p && ilt)) md_prose_tags) /\
   map (fun e => match mk_step u ilt src bs stack tc (mkmev e rs re) with
-                | Ok ([t], _) => Some (Lexer.tspan t, tkind_of t)
+                | Ok [t] => Some (Lexer.tspan t, tkind_of t)
                 | _ => None
                 end) [MSoftBreak; MHardBreak; MStart TList]
     = map (fun '(_, len, n) => Some (span_new_with_len tc len, KNewline n)) md_break_arms /\
